@@ -22,6 +22,15 @@ FIRST_RUN = {
  "C15-r2-1": "T", "C15-r2-2": "T", "C15-r2-3": "-", "C16-r2-1": "-", "C16-r2-2": "T", "C16-r2-3": "O",
  "C17-r2-1": "T", "C17-r2-2": "-", "C17-r2-3": "-", "C18-r2-1": "T", "C18-r2-2": "T", "C18-r2-3": "T",
  "C20-r2-1": "T", "C20-r2-2": "-", "C20-r2-3": "-",
+ # round 3 (56 changes kept; first run against a frozen copy of the machinery as committed before the round; "n/a" = the patch conflicted with a
+ # 'fix:' commit made while the round was running and was evaluated only after being rebased by hand)
+ "C01-r3-1": "n/a", "C01-r3-2": "n/a", "C01-r3-3": "T", "C02-r3-1": "T", "C02-r3-2": "O", "C02-r3-3": "-", "C03-r3-1": "T", "C03-r3-2": "O",
+ "C04-r3-1": "-", "C04-r3-2": "T", "C04-r3-3": "T", "C05-r3-1": "T", "C05-r3-2": "-", "C05-r3-3": "O", "C06-r3-1": "T", "C06-r3-2": "O",
+ "C06-r3-3": "T", "C07-r3-1": "-", "C07-r3-2": "T", "C07-r3-3": "T", "C08-r3-1": "-", "C08-r3-2": "T", "C08-r3-3": "T", "C09-r3-1": "-",
+ "C09-r3-2": "O", "C09-r3-3": "O", "C10-r3-1": "-", "C10-r3-2": "-", "C10-r3-3": "-", "C11-r3-1": "-", "C11-r3-2": "-", "C11-r3-3": "T",
+ "C12-r3-1": "T", "C12-r3-2": "T", "C12-r3-3": "T", "C13-r3-1": "-", "C13-r3-2": "T", "C13-r3-3": "T", "C14-r3-1": "T", "C14-r3-2": "O",
+ "C14-r3-3": "-", "C15-r3-1": "-", "C15-r3-2": "O", "C15-r3-3": "T", "C16-r3-1": "T", "C16-r3-2": "T", "C16-r3-3": "T", "C17-r3-1": "-",
+ "C17-r3-2": "O", "C17-r3-3": "-", "C18-r3-1": "-", "C18-r3-2": "T", "C18-r3-3": "O", "C20-r3-1": "-", "C20-r3-2": "-", "C20-r3-3": "T",
 }
 
 rows = []
@@ -45,10 +54,13 @@ with open("/verif/seeded/INDEX.md", "w") as fh:
     fh.write("\nRemoved after the F15 fix: C03-3 and C04-1 (the same edit as C18-2, written independently by three sub-agents: the offset calculation moved "
              "below the recompilation in `_update_fields`). Their demos relied on the dynamic-alignment path of the generator being wrong (F15); once that was "
              "repaired they no longer fail, so they are not kept. C18-2 still manifests and is reported by C18.R4 / C03.R10 / C04.R7.\n")
-    for label, sel in (("round 1", [r for r in rows if "-r2-" not in r[0]]), ("round 2", [r for r in rows if "-r2-" in r[0]]), ("both rounds", rows)):
+    for label, sel in (("round 1", [r for r in rows if "-r2-" not in r[0] and "-r3-" not in r[0]]), ("round 2", [r for r in rows if "-r2-" in r[0]]),
+                       ("round 3", [r for r in rows if "-r3-" in r[0]]), ("all rounds", rows)):
         t = sum(1 for r in sel if r[2] == "T"); o = sum(1 for r in sel if r[2] == "O"); now = sum(1 for r in sel if "missed" not in r[3])
         fh.write(f"\nTotals {label}: {len(sel)} confirmed changes; first run: {t} by the target check, {o} more only by another check, {len(sel)-t-o} by none; "
                  f"now: {now}/{len(sel)} by the target check.\n")
+    fh.write("\nRound 3: 57 delivered; C03-r3-3 (a fourth copy of the 'one BitBuffer in the generated reader's globals' idea, also delivered as C02-r3-2, "
+             "C06-r3-3 and C14-r3-1) no longer applied after the F23 fix and was not kept. C01-r3-1 and C01-r3-2 conflicted with F28 / F23 and were rebased by hand.\n")
     fh.write("\nRound 2 was evaluated first against a frozen copy of the machinery as committed before that round (so the first-run column is what an "
              "outsider's change met), then triaged. C07-r2-1 counted as T on the first run for the wrong reason (the terminator rule did not recognise the "
              "hoisted zero constant); the rule that reports it now (raw-bytes terminator test on a structure) was written during the triage.\n")
